@@ -1,8 +1,288 @@
 /-
-C14 — Projections only remove, and say so (placeholder while the model is being validated).
+C14 — Projections only remove, and say so: no invention, honest lossy flag.
+
+Property theorems + non-vacuity examples only (helper lemmas live in Octave/Lemmas).  Statements are over the
+executable model `Octave.Model.{Project,Markdown}` (tied to projector.py / eject.py / cli/main.py by the
+regenerated tables of `Gen/Project.lean` and by the differential correspondence of tools/props/c14.py) and the
+independent specification `Octave.Spec.Leaves` (leaves of a document; tagged tree / heading scan of a rendering).
+
+Every theorem holds for documents of ANY depth and width (structural induction over the node tree).
 -/
-import Octave.Spec.Leaves
+import Octave.Lemmas.MarkdownDoc
 namespace Octave.C14
 open Octave
+
+/-! ## Facts about the generated tables (re-proved on every build; a changed table breaks them by name) -/
+
+/-- the (mode → keep-list, lossy, fields_omitted) table of `project()` is the documented one -/
+theorem gen_modeRows : Gen.modeRows =
+    [{ mode := "canonical", keep := none, lossy := false, omitted := [] },
+     { mode := "authoring", keep := none, lossy := false, omitted := [] },
+     { mode := "executive", keep := some ["STATUS", "RISKS", "DECISIONS"], lossy := true, omitted := ["TESTS", "CI", "DEPS"] },
+     { mode := "developer", keep := some ["TESTS", "CI", "DEPS"], lossy := true, omitted := ["STATUS", "RISKS", "DECISIONS"] }] := by
+  decide
+
+theorem gen_defaultRow : Gen.defaultRow = { mode := "", keep := none, lossy := false, omitted := [] } := by decide
+
+/-- every row that filters says so (`keep` present ⇒ `lossy = true`) — the only fact `C14_project_honest` needs -/
+def honestRow (r : Gen.ModeRow) : Bool := r.keep.isNone || r.lossy
+
+theorem gen_rows_honest : (Gen.modeRows.all honestRow && honestRow Gen.defaultRow) = true := by decide
+
+/-- `_filter_fields` filters Assignment and Block nodes and nothing else -/
+theorem gen_filterClasses : Gen.filterClasses.eraseDups = ["Assignment", "Block"] := by decide
+
+/-- node / value classes every converter dispatches on (both copies) — what `nodeEntry`, `convertValue`,
+`mdNode`, `mdValue`, `mdValueCli` transcribe -/
+theorem gen_converterDispatch : Gen.converterDispatch =
+    [("mcp._ast_to_dict", ["Assignment", "Block"]), ("mcp._convert_value", ["LiteralZoneValue", "ListValue", "InlineMap"]),
+     ("mcp._convert_block", ["Assignment", "Block"]), ("mcp._format_markdown_value", ["LiteralZoneValue", "ListValue", "InlineMap"]),
+     ("mcp._ast_to_markdown", ["Assignment", "Block"]), ("mcp._block_to_markdown", ["Assignment", "Block"]),
+     ("cli._ast_to_dict", ["Assignment", "Block"]), ("cli._ast_to_dict.convert_value", ["ListValue", "InlineMap"]),
+     ("cli._ast_to_dict.convert_block", ["Assignment", "Block"]), ("cli._ast_to_markdown", ["Assignment", "Block"]),
+     ("cli._block_to_markdown", ["Assignment", "Block"])] := by
+  decide
+
+/-- every format of `octave_eject` reports `result.lossy` and renders `result.filtered_doc` (or `result.output`,
+its emission); the CLI renders the same objects -/
+theorem gen_ejectFormats : Gen.ejectFormats =
+    [("json", "result.lossy", "_ast_to_dict", "result.filtered_doc"), ("yaml", "result.lossy", "_ast_to_dict", "result.filtered_doc"),
+     ("markdown", "result.lossy", "_ast_to_markdown", "result.filtered_doc"), ("octave", "result.lossy", "-", "result.output"),
+     ("cli:json", "-", "_ast_to_dict", "result.filtered_doc"), ("cli:yaml", "-", "_ast_to_dict", "result.filtered_doc"),
+     ("cli:markdown", "-", "_ast_to_markdown", "result.filtered_doc"), ("cli:octave", "-", "-", "result.output")] := by
+  decide
+
+/-! ## No invention -/
+
+/-- `_filter_fields` only removes: the leaves of the filtered document are a sub-multiset of the source's
+leaves, in the same order, each with the same path and the same value (any keep-list, any document). -/
+theorem C14_no_invention_filter (keep : List Str) (d : Doc) :
+    (Doc.leaves (filterFields keep d)).Sublist (Doc.leaves d) := by
+  simp only [Doc.leaves, filterFields]
+  exact List.Sublist.append (List.Sublist.refl _) (filterList_sublist keep d.sections)
+
+/-- every mode (any mode string) projects to a sub-multiset of the source's leaves -/
+theorem C14_no_invention_project (mode : Str) (d : Doc) :
+    (Doc.leaves (project mode d).doc).Sublist (Doc.leaves d) := by
+  simp only [project, applyRow]
+  split
+  · exact List.Sublist.refl _
+  · exact C14_no_invention_filter _ d
+
+/-- the value `json.dumps` / `yaml.dump` receive is the tagged tree with the tags forgotten … -/
+theorem C14_dict_is_tree (zones : Bool) (d : Doc) : (docTree zones d).erase = astToDict zones d :=
+  docTree_erase zones d
+
+/-- … and every leaf of that tree is a leaf of the rendered document, at the same path, with the converted
+value (both copies of the converter, any document: sections, duplicates, anything). -/
+theorem C14_no_invention_dict (zones : Bool) (d : Doc) :
+    ∀ l ∈ (docTree zones d).leaves, l ∈ (Doc.leaves d).map (convLeaf zones) :=
+  docTree_leaves_sub zones d
+
+/-- end to end: whatever the mode, a leaf of the JSON/YAML rendering is a (converted) leaf of the SOURCE -/
+theorem C14_no_invention (zones : Bool) (mode : Str) (d : Doc) :
+    ∀ l ∈ (docTree zones (project mode d).doc).leaves, ∃ s ∈ Doc.leaves d, l = convLeaf zones s := by
+  intro l hl
+  have h1 := docTree_leaves_sub zones _ l hl
+  obtain ⟨s, hs, rfl⟩ := List.mem_map.mp h1
+  exact ⟨s, (C14_no_invention_project mode d).subset hs, rfl⟩
+
+/-- markdown, under the class guards (without them the scan attributes a bullet to the wrong sub-heading,
+see `C14_KF_md_reparent`): the leaves read back are exactly the rendered document's leaves. -/
+theorem C14_no_invention_markdown_partial (fmt : Value → Str) (d : Doc)
+    (hs : noSections d = true) (ho : mdOrdered d = true) :
+    mdLeaves (mdLines fmt d) = (Doc.leaves d).map (mdLeaf fmt []) :=
+  mdLeaves_eq fmt d hs ho
+
+/-! ## Modes -/
+
+theorem C14_modes_canonical (d : Doc) :
+    (project "canonical".toList d).doc = d ∧ (project "canonical".toList d).lossy = false
+      ∧ (project "canonical".toList d).omitted = [] := by
+  refine ⟨rfl, rfl, rfl⟩
+
+theorem C14_modes_authoring (d : Doc) :
+    (project "authoring".toList d).doc = d ∧ (project "authoring".toList d).lossy = false
+      ∧ (project "authoring".toList d).omitted = [] := by
+  refine ⟨rfl, rfl, rfl⟩
+
+theorem C14_modes_executive (d : Doc) :
+    (project "executive".toList d).doc = filterFields ["STATUS".toList, "RISKS".toList, "DECISIONS".toList] d
+      ∧ (project "executive".toList d).lossy = true := by
+  refine ⟨rfl, rfl⟩
+
+theorem C14_modes_developer (d : Doc) :
+    (project "developer".toList d).doc = filterFields ["TESTS".toList, "CI".toList, "DEPS".toList] d
+      ∧ (project "developer".toList d).lossy = true := by
+  refine ⟨rfl, rfl⟩
+
+theorem findRow_mem (mode : Str) : ∀ rows : List Gen.ModeRow, findRow mode rows ∈ rows ∨ findRow mode rows = Gen.defaultRow
+  | [] => Or.inr rfl
+  | r :: rs => by
+    simp only [findRow]
+    split
+    · exact Or.inl (by simp)
+    · rcases findRow_mem mode rs with h | h
+      · exact Or.inl (List.mem_cons_of_mem _ h)
+      · exact Or.inr h
+
+/-- The projection says so when it removes: for ANY mode string, `lossy = false` implies that the projected
+document is the source document itself (nothing was filtered). -/
+theorem C14_project_honest (mode : Str) (d : Doc) (h : (project mode d).lossy = false) : (project mode d).doc = d := by
+  have hrow : honestRow (findRow mode Gen.modeRows) = true := by
+    have hall := gen_rows_honest
+    simp only [Bool.and_eq_true, List.all_eq_true] at hall
+    rcases findRow_mem mode Gen.modeRows with hm | hm
+    · exact hall.1 _ hm
+    · rw [hm]; exact hall.2
+  simp only [project, applyRow] at h ⊢
+  cases hk : (findRow mode Gen.modeRows).keep with
+  | none => rfl
+  | some ks => simp [honestRow, hk, h] at hrow
+
+/-! ## Honest lossy flag -/
+
+/-- `C14_lossy_honest` is FALSE today without guards (see the `C14_KF_*` theorems below).  Under
+`noSections ∧ noDuplicateSiblings ∧ mdOrdered` it holds for every mode string: when `lossy = false`, the JSON/YAML
+tree (both copies) and the markdown scan contain every leaf of the source, nothing else, at the same paths.
+(Equivalently: a rendering that lacks a leaf ⇒ `lossy = true`.)  The OCTAVE rendering is `emit` of the same
+projected document; that `parse (emit d)` has the leaves of `d` is property C01/C02 (text engine). -/
+theorem C14_lossy_honest_partial (zones : Bool) (fmt : Value → Str) (mode : Str) (d : Doc)
+    (hs : noSections d = true) (hd : noDupSiblings d = true) (ho : mdOrdered d = true)
+    (hl : (project mode d).lossy = false) :
+    (docTree zones (project mode d).doc).leaves = (Doc.leaves d).map (convLeaf zones)
+      ∧ mdLeaves (mdLines fmt (project mode d).doc) = (Doc.leaves d).map (mdLeaf fmt []) := by
+  rw [C14_project_honest mode d hl]
+  exact ⟨docTree_leaves_eq zones d hs hd, mdLeaves_eq fmt d hs ho⟩
+
+/-- contrapositive form, as the property states it -/
+theorem C14_missing_leaf_means_lossy_partial (zones : Bool) (mode : Str) (d : Doc)
+    (hs : noSections d = true) (hd : noDupSiblings d = true)
+    (hm : (docTree zones (project mode d).doc).leaves ≠ (Doc.leaves d).map (convLeaf zones)) :
+    (project mode d).lossy = true := by
+  cases hl : (project mode d).lossy with
+  | true => rfl
+  | false =>
+    exfalso; apply hm
+    rw [C14_project_honest mode d hl]
+    exact docTree_leaves_eq zones d hs hd
+
+/-- and `json.dumps` does not raise (MCP copy) when no value is holographic or a plain dict -/
+theorem C14_jsonable_partial (d : Doc) (h : docValuesAll Value.mcpOk d = true) : jsonable (astToDict true d) = true :=
+  astToDict_jsonable d h
+
+/-! ## The four renderings of one projection agree -/
+
+/-- Under the guards on the projected document `d'`, the JSON/YAML tree, the markdown scan and (given the
+reader/emitter round trip, property C01/C02, as an explicit hypothesis) the OCTAVE text all contain exactly the
+leaves of `d'`: same paths, each value the format's image of the same source value. -/
+theorem C14_formats_agree_partial (zones : Bool) (fmt : Value → Str) (d' : Doc)
+    (emit : Doc → Str) (parse : Str → Doc) (hrt : ∀ x, Doc.leaves (parse (emit x)) = Doc.leaves x)
+    (hs : noSections d' = true) (hd : noDupSiblings d' = true) (ho : mdOrdered d' = true) :
+    (docTree zones d').leaves = (Doc.leaves d').map (convLeaf zones)
+      ∧ mdLeaves (mdLines fmt d') = (Doc.leaves d').map (mdLeaf fmt [])
+      ∧ Doc.leaves (parse (emit d')) = Doc.leaves d'
+      ∧ (docTree zones d').leaves.map Prod.fst = (mdLeaves (mdLines fmt d')).map Prod.fst := by
+  have h1 := docTree_leaves_eq zones d' hs hd
+  have h2 := mdLeaves_eq fmt d' hs ho
+  refine ⟨h1, h2, hrt d', ?_⟩
+  rw [h1, h2]
+  simp [convLeaf, mdLeaf, List.map_map, Function.comp_def]
+
+/-! ## The CLI copy of the converters -/
+
+/-- `cli/main.py:_ast_to_dict` equals `mcp/eject.py:_ast_to_dict` on documents without literal zones -/
+theorem C14_cli_same_dict (d : Doc) (h : noZones d = true) : astToDict false d = astToDict true d :=
+  astToDict_cli_eq d h
+
+/-- `cli/main.py:_ast_to_markdown` equals the MCP copy when every value is a scalar (the CLI copy formats
+values with a bare f-string) -/
+theorem C14_cli_same_markdown (d : Doc) (h : scalarOnly d = true) :
+    astToMarkdown mdValueCli d = astToMarkdown mdValue d := by
+  simp [astToMarkdown, mdLines_cli_eq d h]
+
+/-! ## Known findings: the unguarded statements are false (negations proved on the witnesses of
+`known_findings/C14.txt`; each witness is replayed on the real code on every run) -/
+
+def s (x : String) : Str := x.toList
+
+/-- F24 witness `§1::S ⟨A::1⟩, B::2` -/
+def wF24 : Doc := { name := s "DOC", sections := [.sect {} (s "1") (s "S") [.assign {} (s "A") (.int 1)], .assign {} (s "B") (.int 2)] }
+/-- F24: canonical mode says `lossy = false`, yet the leaf `S/A` is in neither dict (both copies) nor markdown -/
+theorem C14_KF_sections :
+    (project (s "canonical") wF24).lossy = false
+    ∧ [s "S", s "A"] ∈ (Doc.leaves wF24).map Prod.fst
+    ∧ [s "S", s "A"] ∉ (docTree true (project (s "canonical") wF24).doc).leaves.map Prod.fst
+    ∧ [s "S", s "A"] ∉ (docTree false (project (s "canonical") wF24).doc).leaves.map Prod.fst
+    ∧ [s "S", s "A"] ∉ (mdLeaves (mdLines mdValue (project (s "canonical") wF24).doc)).map Prod.fst
+    ∧ noSections wF24 = false := by
+  decide
+
+/-- F25 witness `B::2, B::3` -/
+def wF25 : Doc := { name := s "DOC", sections := [.assign {} (s "B") (.int 2), .assign {} (s "B") (.int 3)] }
+/-- F25: two leaves in, one leaf out, `lossy = false` -/
+theorem C14_KF_duplicates :
+    (project (s "canonical") wF25).lossy = false
+    ∧ (Doc.leaves wF25).length = 2
+    ∧ (docTree true (project (s "canonical") wF25).doc).leaves.length = 1
+    ∧ noDupSiblings wF25 = false := by
+  decide
+
+/-- F33 witness `K::["x"∧REQ]` -/
+def wF33 : Doc := { name := s "DOC", sections := [.assign {} (s "K") (.holo (s "[\"x\"∧REQ]"))] }
+/-- F33: `json.dumps` raises on the converted document (both copies) -/
+theorem C14_KF_holographic :
+    jsonable (astToDict true wF33) = false ∧ jsonable (astToDict false wF33) = false
+    ∧ docValuesAll Value.mcpOk wF33 = false := by
+  decide
+
+/-- F50 witness `BLK: ⟨P::1, IN: ⟨Q::2⟩, R::3⟩` -/
+def wF50 : Doc := { name := s "DOC", sections := [.block {} (s "BLK")
+  [.assign {} (s "P") (.int 1), .block {} (s "IN") [.assign {} (s "Q") (.int 2)], .assign {} (s "R") (.int 3)]] }
+/-- F50: the markdown scan finds `BLK/IN/R`, which the source does not have, and misses `BLK/R` -/
+theorem C14_KF_md_reparent :
+    (project (s "canonical") wF50).lossy = false
+    ∧ [s "BLK", s "IN", s "R"] ∈ (mdLeaves (mdLines mdValue wF50)).map Prod.fst
+    ∧ [s "BLK", s "IN", s "R"] ∉ (Doc.leaves wF50).map Prod.fst
+    ∧ [s "BLK", s "R"] ∉ (mdLeaves (mdLines mdValue wF50)).map Prod.fst
+    ∧ mdOrdered wF50 = false := by
+  decide
+
+/-- F51 witnesses: a literal zone, a list -/
+def wF51z : Doc := { name := s "DOC", sections := [.assign {} (s "Z") (.zone (s "x") none (s "```"))] }
+def wF51l : Doc := { name := s "DOC", sections := [.assign {} (s "L") (.list [.str (s "a"), .str (s "b")])] }
+/-- F51: the CLI copy is NOT the MCP copy on zones (dict) and on non-scalars (markdown) -/
+theorem C14_KF_cli_differs :
+    jsonable (astToDict true wF51z) = true ∧ jsonable (astToDict false wF51z) = false
+    ∧ mdLines mdValueCli wF51l ≠ mdLines mdValue wF51l
+    ∧ noZones wF51z = false ∧ scalarOnly wF51l = false := by
+  decide
+
+/-- F52 witness: `META: ⟨TYPE::X, SUB: ⟨K::[a,b]⟩⟩` -/
+def wF52 : Doc := { name := s "DOC", dmeta := [(s "TYPE", .str (s "X")), (s "SUB", .pydict [(s "K", .list [.str (s "a"), .str (s "b")])])],
+                    sections := [.assign {} (s "A") (.int 1)] }
+theorem C14_KF_meta_nested :
+    jsonable (astToDict true wF52) = false ∧ docValuesAll Value.mcpOk wF52 = false := by
+  decide
+
+/-! ## Non-vacuity: a document with nested blocks, lists, an inline map, a literal zone, META and the filter keys
+at top level and nested meets every guard, and the executive projection really removes something -/
+
+def wOK : Doc := {
+  name := s "DOC", dmeta := [(s "TYPE", .str (s "T"))],
+  sections := [.assign {} (s "STATUS") (.str (s "ACTIVE")),
+               .assign {} (s "L") (.list [.imap [(s "k", .int 1)], .str (s "x")]),
+               .block {} (s "BLK") [.assign {} (s "RISKS") (.list [.str (s "r1")]), .assign {} (s "Z") (.zone (s "raw") (some (s "py")) (s "```")),
+                                    .block {} (s "IN") [.assign {} (s "TESTS") (.bool true)]],
+               .comment {} (s "note")] }
+
+example : noSections wOK = true ∧ noDupSiblings wOK = true ∧ mdOrdered wOK = true ∧ docValuesAll Value.mcpOk wOK = true := by decide
+example : (project (s "canonical") wOK).lossy = false := by decide
+example : (Doc.leaves (project (s "executive") wOK).doc).length = 3 ∧ (Doc.leaves wOK).length = 6 := by decide
+example : (docTree true wOK).leaves.map Prod.fst = (Doc.leaves wOK).map Prod.fst := by decide
+example : (mdLeaves (mdLines mdValue wOK)).map Prod.fst = (Doc.leaves wOK).map Prod.fst := by decide
+example : noZones wF25 = true ∧ scalarOnly wF25 = true := by decide
+/-- the hypothesis of `C14_missing_leaf_means_lossy_partial` is met by the developer projection of `wOK` -/
+example : (docTree true (project (s "developer") wOK).doc).leaves.length ≠ ((Doc.leaves wOK).map (convLeaf true)).length := by decide
 
 end Octave.C14
